@@ -148,6 +148,17 @@ Theorem p_command_print : forall f s a w rds r z pre,
     p_command f' (pre ++ print_command (CSimple a w rds) ++ z) = Ok (Some (CSimple a w rds), z).
 Proof. exact command_print_lemma. Qed.
 
+(* parse_print_list for the lists made of simple commands: a text whose tree
+   consists of pipelines (with `!`), and-or lists (`&&`, `||`) and sequences
+   (`;`, `&`, newlines) of simple commands without `$(...)`, none of whose
+   printed words ends with a backslash, is printed by Display for List as a
+   text that the parser reads back as the same tree.  [clean_list] says
+   exactly that about the tree; compound commands and function definitions are
+   not covered. *)
+Theorem parse_print_simple_lists : forall s l,
+  parse_program s = Ok l -> clean_list l -> parse_program (print_list false l) = Ok l.
+Proof. exact parse_print_simple_lists_lemma. Qed.
+
 (* operator spacing: an operator is read back from its text whenever the next
    character does not turn it into a longer operator *)
 Theorem lex_operator_print : forall o z,
